@@ -118,7 +118,10 @@ def handle (line : String) : Out :=
         | some i =>
           match mapM? parseSOut (tokens i) with
           | none => "*"      -- not a trace (HANG, nowire …): reported as a broken tie
-          | some tr => if srvOk 0 tr then "*" else "!ack-window: trace violates ack<=outstanding or 0..65535"
+          | some tr =>
+            if !srvOk 0 tr then "!ack-window: trace violates ack<=outstanding or 0..65535"
+            else if !srvDemands acts tr then "!counts: a request went out with a count or flag the caller did not give (out-of-range counts must be refused, not wrapped)"
+            else "*"
       { model, spec }
   | "cli" :: steps =>
     match mapM? parseCAct steps with
